@@ -58,6 +58,15 @@ func (dec *Decoder) decodeLongAsInterface(p *interface{}) {
 			}
 		}
 	}
+	// (parsing is quadratic in the number of digits: who has not asked for big integers does
+	// not pay seconds for a megabyte of them)
+	const maxDigits = 4096
+	if len(text) > maxDigits {
+		if dec.Error == nil {
+			dec.Error = DecodeError("hprose/io: a long number of " + strconv.Itoa(len(text)) + " digits for a destination that has not asked for big integers")
+		}
+		return
+	}
 	bi := dec.stringToBigInt(text, nil)
 	if bi == nil {
 		return
